@@ -7,6 +7,8 @@
   for every `txidOf : Tx → Option Bytes` (`txn.Hash(false)`, `none` = serialisation error); `H` is the
   hash as a total function on the transactions that occur.
 -/
+import BtcVerif.Props.GuardPins.P_feecalc
+import BtcVerif.Props.GuardPins.P_unspent
 import BtcVerif.Proofs.Utxo
 import BtcVerif.Proofs.Fee
 import BtcVerif.Proofs.FeeRange
